@@ -680,7 +680,7 @@ func (ch c13) Run(c *core.Ctx) {
 			for hi, h := range handlers {
 				if total%nb == c.Batch && c.Begin(idx) && c.NViol() < 10 {
 					rng := core.NewRng(c.Seed, "C13e", 0, total)
-					k := c13case{NCols: 1 + (total % 20), Format: int16(total % 2), Exec: (total/2)%3 == 0, Seq: append([]string(nil), cur...), Term: term, Handler: h, OwnErr: total % 5}
+					k := c13case{NCols: 1 + (total % 20), Format: int16(total % 2), Exec: (total/2)%3 == 0, Seq: append([]string(nil), cur...), Term: term, Handler: h, OwnErr: total % len(hs.OwnErrs)}
 					for n := (ti + hi) % 3; n > 0; n-- {
 						k.Strays = append(k.Strays, core.Pick(rng, []string{"d", "c", "f"}))
 					}
@@ -712,7 +712,7 @@ func (ch c13) Run(c *core.Ctx) {
 			continue
 		}
 		rng := core.NewRng(c.Seed, "C13", 0, i)
-		k := c13case{NCols: core.Pick(rng, []int{1, 2, 3, 5, 20, 255, 256, 1000, 1600}), Format: int16(rng.Intn(2)), Exec: rng.Intn(3) == 0, Term: core.Pick(rng, terms), Handler: core.Pick(rng, handlers), OwnErr: rng.Intn(5)}
+		k := c13case{NCols: core.Pick(rng, []int{1, 2, 3, 5, 20, 255, 256, 1000, 1600}), Format: int16(rng.Intn(2)), Exec: rng.Intn(3) == 0, Term: core.Pick(rng, terms), Handler: core.Pick(rng, handlers), OwnErr: rng.Intn(len(hs.OwnErrs))}
 		for n := rng.Intn(9); n > 0; n-- {
 			k.Seq = append(k.Seq, core.Pick(rng, []string{"d", "d", "d", "H", "S"}))
 		}
